@@ -44,10 +44,10 @@ def defaultPort? (s : Str) : Option Nat := schemePorts.lookup s
 
 /-- `DEFAULT_ENCODE_SET = b' "#<>?`'` -/
 def defaultSet : List Nat := [32, 34, 35, 60, 62, 63, 96]
-/-- `PASSWORD_ENCODE_SET = DEFAULT | b'/@\\'` -/
-def passwordSet : List Nat := [32, 34, 35, 60, 62, 63, 96, 47, 64, 92]
+/-- `PASSWORD_ENCODE_SET = DEFAULT | b'/@\\%'` -/
+def passwordSet : List Nat := [32, 34, 35, 60, 62, 63, 96, 47, 64, 92, 37]
 /-- `USERNAME_ENCODE_SET = PASSWORD | b':'` -/
-def usernameSet : List Nat := [32, 34, 35, 60, 62, 63, 96, 47, 64, 92, 58]
+def usernameSet : List Nat := [32, 34, 35, 60, 62, 63, 96, 47, 64, 92, 37, 58]
 /-- `QUERY_ENCODE_SET = b'"#<>`'` -/
 def querySet : List Nat := [34, 35, 60, 62, 96]
 /-- `FRAGMENT_ENCODE_SET = b' "<>`'` -/
@@ -308,21 +308,37 @@ def truthy (o : Option Str) : Bool :=
 /-- `s.lower()` -/
 def pyLower (c : Cfg) (s : Str) : Str := if isAscii s then s.map asciiLower else c.lowerNA s
 
-/-- the network-scheme part of `parse` (after the scheme has been decided) -/
-def parseNet (c : Cfg) (url scheme rem0 : Str) (dp : Nat) : Except PyExc URLInfo :=
-  let rem := if startsWith rem0 [47, 47] then rem0.drop 2 else rem0
+/-- the pieces `parse` cuts out of `remaining` (after the `//` has been removed) -/
+structure RemParts where
+  authority : Str
+  resource : Str
+  /-- `remaining[authority_index + 1:path_index] or '/'` -/
+  path : Str
+  query : Str
+  fragment : Str
+  deriving DecidableEq, Repr
+
+/-- the index arithmetic of `parse` -/
+def splitRem (rem : Str) : RemParts :=
   let pi := findChar 47 rem
   let qi := findChar 63 rem
   let fi := findChar 35 rem
   let ai := minIdx [pi, qi, fi] rem.length
-  let authority := rem.take ai
-  let resource := rem.drop ai
   let pidx := minIdx [qi, fi] rem.length
   let path0 := pySlice rem (ai + 1) pidx
-  let path := if path0.isEmpty then [47] else path0
   let qidx := fi.getD rem.length
-  let query := pySlice rem (pidx + 1) qidx
-  let fragment := rem.drop (qidx + 1)
+  { authority := rem.take ai, resource := rem.drop ai,
+    path := if path0.isEmpty then [47] else path0,
+    query := pySlice rem (pidx + 1) qidx, fragment := rem.drop (qidx + 1) }
+
+/-- the network-scheme part of `parse` (after the scheme has been decided) -/
+def parseNet (c : Cfg) (url scheme rem0 : Str) (dp : Nat) : Except PyExc URLInfo :=
+  let rp := splitRem (if startsWith rem0 [47, 47] then rem0.drop 2 else rem0)
+  let authority := rp.authority
+  let resource := rp.resource
+  let path := rp.path
+  let query := rp.query
+  let fragment := rp.fragment
   let ua := parseAuthority authority
   match parseHost c ua.2 with
   | .error e => .error e
@@ -479,6 +495,19 @@ def parseOrLog (c : Cfg) (u : Str) : Except PyExc (Option URLInfo) :=
   match parse c u with
   | .ok i => .ok (some i)
   | .error e => if e.isa .ValueError then .ok none else .error e
+
+/-- the loop head of `ProcessingRule._process_scrape_info` (wpull/processor/rule.py), the consumer of
+the logging variant: `url_info = self.parse_url(link)`, `if not url_info: continue`; the kept results -/
+def scrapeParse (c : Cfg) : List Str → Except PyExc (List URLInfo)
+  | [] => .ok []
+  | l :: ls =>
+    match parseOrLog c l with
+    | .error e => .error e
+    | .ok none => scrapeParse c ls
+    | .ok (some i) =>
+      match scrapeParse c ls with
+      | .error e => .error e
+      | .ok r => .ok (i :: r)
 
 /-- `wpull.url.urljoin` around the stdlib join `stdJoin base url` (parameter) -/
 def urljoin (stdJoin : Str → Str → Except PyExc Str) (base url : Str) : Except PyExc Str :=
